@@ -6,7 +6,7 @@
    in the machine state changes.  Plus the ON dispatch arithmetic.
    What is NOT proved: the same for statements and control flow (GOTO/GOSUB/FOR/WHILE/IF, symbol resolution in the
    linker, TRON).  There the deciding work is the differential run of generated programs against Spec/Sem.v. *)
-From BL Require Import Base.Prelude Mach.Val Lang.Ast Mach.Compile Mach.Runtime Spec.Sem Proofs.Slicing Proofs.ExprCompile.
+From BL Require Import Base.Prelude Mach.Val Mach.Func Mach.Var Lang.Token Lang.Ast Mach.Compile Mach.Runtime Spec.Sem Proofs.Slicing Proofs.ExprCompile.
 Local Open Scope N_scope.
 
 (* ON: selector 0 or beyond the list falls through past the jump table; 1..len selects an entry *)
@@ -73,3 +73,34 @@ Theorem C01_compiled_expression_correct : forall O h e r s line,
   end.
 Proof. exact compiled_expression_correct. Qed.
 Print Assumptions C01_compiled_expression_correct.
+
+(* ---- a whole statement: LET v = e for a scalar variable ---- *)
+Theorem C01_let_code : forall c cv i e, pure e = true -> builtin_arity (ident_str i) = None ->
+  lenN (let_code i e) <= MAX_POOL ->
+  snd (fst (cg_stmt (SLet c (VUnary cv i) e))) = plain (let_code i e) /\ snd (cg_stmt (SLet c (VUnary cv i) e)) = [].
+Proof. exact cg_let_shape. Qed.
+Print Assumptions C01_let_code.
+
+(* the compiled assignment leaves exactly the variable store the reference semantics prescribes, the stack as it was *)
+Theorem C01_compiled_let_correct : forall O h line cv i e r s vs,
+  pure e = true -> r_slen r + lenN (postfix e) <= MAX_POOL -> s_locals s = [] -> s_vars s = r_vars r ->
+  (sdo x <~ eval O (S (depth e)) line e ;; assign O (S (depth e)) line (VUnary cv i) x) s = (with_vars s vs, EvOk tt) ->
+  run_ops O h (let_code i e) r = (set_vars r vs, Ok tt).
+Proof. exact compiled_let_correct. Qed.
+Print Assumptions C01_compiled_let_correct.
+
+Theorem C01_run_let : forall O h i e r, pure e = true -> r_slen r + lenN (postfix e) <= MAX_POOL ->
+  match eval_pure O (r_vars r) e with
+  | Ok v =>
+      match var_store (r_vars r) (ident_str i) v with
+      | Ok vs => run_ops O h (let_code i e) r = (set_vars r vs, Ok tt)
+      | Err er => snd (run_ops O h (let_code i e) r) = Err er
+      | Panic => snd (run_ops O h (let_code i e) r) = Panic
+      | Hang => snd (run_ops O h (let_code i e) r) = Hang
+      end
+  | Err er => snd (run_ops O h (let_code i e) r) = Err er
+  | Panic => snd (run_ops O h (let_code i e) r) = Panic
+  | Hang => snd (run_ops O h (let_code i e) r) = Hang
+  end.
+Proof. exact run_let. Qed.
+Print Assumptions C01_run_let.
